@@ -45,11 +45,11 @@ def _samples(f, pe, ty, tyt):
         mk = lambda v: ("array", tuple(mk_int("u8", x) for x in v))
         return [mk((1, 2, 3, 255)), mk((200, 100, 50, 128))], {tyt["name"]: "[u8; 4]"}
     if ty in ("usize", "u32", "u64", "u8", "u16"):
-        return [mk_int(ty, 3), mk_int(ty, 11)], None
+        return [mk_int(ty, 3), mk_int(ty, 11), mk_int(ty, 0)], None
     if ty == "f64":
-        return [("float", 1.5), ("float", 6.25)], None
+        return [("float", 1.5), ("float", 6.25), ("float", 0.0), ("float", -2.0)], None
     if ty == "std::string::String":
-        return [("string", tuple(ord(c) for c in "a.png")), ("string", tuple(ord(c) for c in "b.svg"))], None
+        return [("string", tuple(ord(c) for c in "a.png")), ("string", tuple(ord(c) for c in "b.svg")), ("string", ())], None
     if ty == "bool":
         return [("bool", True), ("bool", False)], None
     ad = f.adts.get(ty)
@@ -106,16 +106,22 @@ def c14_p7(ctx, f, rid="C14.P7"):
         calls = {}  # setter path -> [(args, subst) x2]
         for fn in sets:
             ins, tyts = fn.raw["inputs"][1:], (fn.raw.get("inputs_tyt") or [])[1:]
-            vals, sub, ok = [[], []], {}, True
+            vals, sub, ok = [], {}, True
+            sms = []
             for ty, tyt in zip(ins, tyts):
                 sm = _samples(f, pe, ty, tyt)
                 if sm is None:
                     ok = False
                     break
-                vals[0].append(sm[0][0])
-                vals[1].append(sm[0][1])
+                sms.append(sm[0])
                 if sm[1]:
                     sub.update(sm[1])
+            if ok:
+                # k-th argument tuple: the k-th sample of every parameter (a parameter with fewer samples cycles through its own)
+                nk = max([len(x) for x in sms] or [2])
+                vals = [[x[k % len(x)] for x in sms] for k in range(nk)]
+                if sms and len({tuple(map(repr, v)) for v in vals}) < 2:
+                    ok = False
             if not ok or len(tyts) != len(ins):
                 ctx.abstain(rid, "setter %s takes a parameter type the rule cannot build: %s" % (fn.path, ins), where_fn(fn))
                 decided = False
@@ -151,6 +157,24 @@ def c14_p7(ctx, f, rid="C14.P7"):
             s12, w1 = apply(S0, [(a, 0), (a, 1)])
             s2, w2 = apply(S0, [(a, 1)])
             w = w1 or w2
+            if not w and name(a) not in APPENDERS and _norm(pe, s12) == _norm(pe, s2):
+                # the other ordered pairs of sample values (zero, negative, empty, ...): report the first that differs
+                nk = len(calls[a][0])
+                for i_ in range(nk):
+                    for j_ in range(nk):
+                        if i_ == j_ or (i_, j_) == (0, 1):
+                            continue
+                        sx, wx1 = apply(S0, [(a, i_), (a, j_)])
+                        sy, wx2 = apply(S0, [(a, j_)])
+                        if wx1 or wx2:
+                            w = w or wx1 or wx2
+                            break
+                        if _norm(pe, sx) != _norm(pe, sy):
+                            s12, s2 = sx, sy
+                            break
+                    else:
+                        continue
+                    break
             if w:
                 if w[0] == "panics":
                     ctx.fail(rid, "%s/panics" % a, where_fn(fa), a, name(a), "the setter panics on a sample value", found=w[1])
